@@ -85,13 +85,13 @@ CLAIMS["C19"] = ("site guards on payouts (comparison strictness), post-payout mu
 
 # repository-wide rules instantiated from the code itself (generic.go, recordlink.go), scoped per property
 GENERIC = {
-    "C20": " Also: all call sites of a store-key constructor pass their identifier kinds in the same order (genesis-only setters write under the key the runtime reads). Also: an export reader is not conditional on another reader's result; an index entry that is deleted and written again is deleted under its old key.",
+    "C20": " Also: all call sites of a store-key constructor pass their identifier kinds in the same order (genesis-only setters write under the key the runtime reads). Also: an export reader is not conditional on another reader's result; an index entry that is deleted and written again is deleted under its old key. Store keys over one prefix share their leading components with the scan prefix; a value decoded inside a loop has a fresh target per iteration.",
     "C18": " Also: in the lend keeper a refreshed accrual index comes with a refreshed accrual clock on every success path. Also: the base of an accrual formula is not a field the calling function increases.",
     "C17": " Also: the wide window sum is divided before it is narrowed; consumers in every module read the stored price only under found and IsPriceActive of the very record read (4 known findings: reward valuation and the V2 bid path accept an inactive price). Also: identifier kinds in the oracle modules (a script id is not an asset id).",
     "C15": " Also: at any depth inside a unit the error of a step that can fail after writing state is tested, handed on or returned, never dropped. Also: a window helper whose results bound a slice in unwrapped hook code does arithmetic only on parameters tested non-negative.",
     "C12": " Also: a record stored under an id read from a counter advances that counter on the same success path (otherwise the next creation overwrites the record and its owner).",
-    "C05": " Also: a matching function given the fill price judges and fills every order at that price only; MatchableAmount applies its zero-quote-value test on every path (both directions). Also where the fill price is a local or captured variable: every judged price is one the function fills at.",
-    "C06": " Also: the denomination-linkage and execute-once rules of the liquidity module (foreign shares redeemed against a pool, or a deposit executed twice, change the reserves per share). Also: pool creation recomputes the other coin's amount (rounded up) only when its first guess strictly exceeds the offer. Also: x = quote, y = base at every call into the amm package.",
+    "C05": " Also: a matching function given the fill price judges and fills every order at that price only; MatchableAmount applies its zero-quote-value test on every path (both directions). Also where the fill price is a local or captured variable: every judged price is one the function fills at. FulfillOrder fills exactly when the matchable amount is positive.",
+    "C06": " Also: the denomination-linkage and execute-once rules of the liquidity module (foreign shares redeemed against a pool, or a deposit executed twice, change the reserves per share). Also: pool creation recomputes the other coin's amount (rounded up) only when its first guess strictly exceeds the offer. Also: x = quote, y = base at every call into the amm package. The module's identifier-kind rule is part of this check.",
     "C02": " Also: counter provenance (a vault stored under a fresh id takes it from the vault counter read in the same function, and that id is what is stored back as the counter), and the stable-mint handlers book on the stable vault of the product the message names. Also: a running amount (esm redemption set-up) is started and continued with the same quantity.",
     "C01": " Also (repository-wide rules scoped to the vault module): identifier-kind agreement at every keeper call, no stale copy for every Get/Set accessor pair, outside the handlers a vault is credited only by an amount moved into vault custody in the same function (auction settlement under shutdown), and records loaded under independent message ids are tied by an equality test before a coin-moving handler can succeed. Also: counter provenance for vault ids. Also: direction-flag updaters of the published totals store the field plus / minus the amount and nothing else; no sdk-math result is computed and dropped.",
     "C03": " Also: records loaded under independent message ids (product and vault) are tied by an equality test, so the limits applied are those of the vault's own product. Also: in/out scale agreement and price discipline in the vault and market modules (a failed or inactive price is an error, never a default value). Also: direction-flag updaters of the minted / locked totals store the field plus / minus the amount; the floor is compared with one vault's principal.",
